@@ -182,6 +182,9 @@ class Interp:
     if name == 'rem' and eqn is not None and np.dtype(eqn.outvars[0].aval.dtype).kind in 'iu':
       a, b = self._pair(ins) if not is_sym(ins[0]) else ins
       return a._ew(b, lambda x, y: (int(x) % int(y)) if not (_term.isz(x) or _term.isz(y)) else _term.R(x) % _term.R(y))
+    if name == 'rem' and isinstance(next(x for x in ins if is_sym(x)), TermArr):
+      a, b = ins
+      return a.frem(b) if is_sym(a) else b.frem(a, swap=True)
     if name == 'div':
       if not is_sym(ins[1]) and np.any(np.asarray(ins[1]) == 0):
         if OPTIONS.get('div0_to_nan') and isinstance(ins[0], PolyArr):
